@@ -520,7 +520,10 @@ def main(argv=None):
     needed = list(getattr(module, "GENERATED", []))
     # only this property's generated files are rewritten (other checks may be running concurrently
     # against another VERIF_REPO); files that do not exist yet are generated too
-    tr = gen.regenerate(only=needed) if needed else {}
+    if WORK != VERIF:
+        tr = gen.regenerate()          # private work directory: generate everything from VERIF_REPO
+    else:
+        tr = gen.regenerate(only=needed) if needed else {}
     for out in needed:
         r = tr.get(out)
         if r is None:
